@@ -560,10 +560,12 @@ impl Observer for RedeliveryObserver {
         let cl = &w.clients[who];
         let rec = cl.delivered.get(&idx).expect("delivery recorded");
         // did an earlier hand-over take effect?
-        let took_effect = matches!(
-            rec.first_outcome,
-            Outcome::App(_) | Outcome::Commit | Outcome::PendingProposal | Outcome::AutoCommit
-        );
+        // a commit took effect when the client's state actually moved on it (an own commit that
+        // was superseded before its echo arrived is answered "commit" without any effect)
+        let took_effect = match rec.first_outcome {
+            Outcome::App(_) | Outcome::PendingProposal | Outcome::AutoCommit => true,
+            _ => cl.applied.iter().any(|(a, _, _)| *a == idx),
+        };
         if !took_effect {
             return Ok(());
         }
